@@ -5,7 +5,7 @@ from hypothesis import strategies as st
 
 from harness import gen
 from harness.algebras import all_var_names, show, walk
-from harness.common import build, exc_label, is_expr, jet_ref, n_ops, node_kinds, pvals_of, quiet, thresholds, to_float
+from harness.common import decoy_model, build, exc_label, is_expr, jet_ref, n_ops, node_kinds, pvals_of, quiet, thresholds, to_float
 from harness.engine import Result
 
 ID = "C02"
@@ -90,6 +90,8 @@ def check(case):
         classes.append("tiny-overall-factor")
     thr = 1 if case["config"] == "lowthr" else None
     with thresholds(thr), quiet():
+        if decoy_model(env, recipe, len(show(recipe))):
+            classes.append("after-name-equal-sibling-model")
         try:
             b, e = build(env, recipe)
         except Exception as ex:
